@@ -42,13 +42,14 @@ theorem valid_iff_conj (c : Cfg) : Valid c ↔
      GreaterThanOne c.CompactionRatio ∧ Finite c.CompactionRatio ∧
      0 < c.ReadOnlyTxTTL ∧ 0 < c.ReadWriteTxTTL ∧ 0 < c.IdleTxTimeout ∧ 0 < c.TxCleanupInterval ∧
      (1 ≤ c.TxWarningThreshold ∧ c.TxWarningThreshold ≤ 99) ∧
-     (c.TxWarningThreshold < c.TxCriticalThreshold ∧ c.TxCriticalThreshold ≤ 99)) := by
+     (c.TxWarningThreshold < c.TxCriticalThreshold ∧ c.TxCriticalThreshold ≤ 99) ∧
+     (ValidUTF8 c.WALDir ∧ ValidUTF8 c.SSTDir)) := by
   constructor
   · intro h
     exact ⟨h 0 (by decide), h 1 (by decide), h 2 (by decide), h 3 (by decide), h 4 (by decide), h 5 (by decide),
       h 6 (by decide), h 7 (by decide), h 8 (by decide), h 9 (by decide), h 10 (by decide), h 11 (by decide),
-      h 12 (by decide), h 13 (by decide), h 14 (by decide), h 15 (by decide)⟩
-  · rintro ⟨h0, h1, h2, h3, h4, h5, h6, h7, h8, h9, h10, h11, h12, h13, h14, h15⟩ k hk
+      h 12 (by decide), h 13 (by decide), h 14 (by decide), h 15 (by decide), h 16 (by decide)⟩
+  · rintro ⟨h0, h1, h2, h3, h4, h5, h6, h7, h8, h9, h10, h11, h12, h13, h14, h15, h16⟩ k hk
     match k, hk with
     | 0, _ => exact h0
     | 1, _ => exact h1
@@ -66,7 +67,8 @@ theorem valid_iff_conj (c : Cfg) : Valid c ↔
     | 13, _ => exact h13
     | 14, _ => exact h14
     | 15, _ => exact h15
-    | k + 16, hk => exact absurd hk (by simp [numConstraints])
+    | 16, _ => exact h16
+    | k + 17, hk => exact absurd hk (by simp [numConstraints])
 
 /-- the ratio guards (8 and 9) together say: finite and greater than one -/
 theorem ratio_guards (r : Ratio) :
@@ -81,16 +83,21 @@ theorem validate_iff (c : Cfg) : validate c = none ↔ Valid c := by
   have hr := ratio_guards c.CompactionRatio
   simp only [guards, List.mem_cons, List.not_mem_nil, or_false, forall_eq_or_imp, forall_eq]
   constructor
-  · rintro ⟨g0, g1, g2, g3, g4, g5, g6, g7, g8, g9, g10, g11, g12, g13, g14, g15⟩
+  · rintro ⟨g0, g1, g2, g3, g4, g5, g6, g7, g8, g9, g10, g11, g12, g13, g14, g15, g16⟩
     have hr' := hr.1 ⟨g8, g9⟩
     simp only [decide_eq_false_iff_not, Bool.or_eq_false_iff] at g0 g1 g2 g3 g4 g5 g6 g7 g10 g11 g12 g13 g14 g15
+    have hu : ValidUTF8 c.WALDir ∧ ValidUTF8 c.SSTDir := by
+      simp only [Bool.or_eq_false_iff, Bool.not_eq_false', decide_eq_true_eq] at g16
+      exact g16
     refine ⟨by omega, g1, g2, by omega, by omega, by omega, by omega, by omega, hr'.1, hr'.2, by omega, by omega,
-      by omega, by omega, by omega, by omega⟩
-  · rintro ⟨h0, h1, h2, h3, h4, h5, h6, h7, h8, h9, h10, h11, h12, h13, h14, h15⟩
+      by omega, by omega, by omega, by omega, hu⟩
+  · rintro ⟨h0, h1, h2, h3, h4, h5, h6, h7, h8, h9, h10, h11, h12, h13, h14, h15, h16⟩
     have hr' := hr.2 ⟨h8, h9⟩
     simp only [decide_eq_false_iff_not, Bool.or_eq_false_iff]
     refine ⟨by omega, h1, h2, by omega, by omega, by omega, by omega, by omega, hr'.1, Bool.or_eq_false_iff.1 hr'.2, by omega, by omega,
-      by omega, by omega, by omega, by omega⟩
+      by omega, by omega, by omega, by omega, ?_⟩
+    simp only [Bool.not_eq_false', decide_eq_true_eq]
+    exact h16
 
 theorem guards_length (c : Cfg) : (guards c).length = numConstraints := by
   simp [guards, numConstraints]
@@ -110,6 +117,13 @@ theorem validate_some_sound (c : Cfg) (k : Nat) (h : validate c = some k) :
     simp [guards] at h1
     simp only [Constraint]
     first | omega | simp [h1]
+  | 16, _ =>
+    simp [guards] at h1
+    simp only [Constraint]
+    intro h
+    rcases h1 with h1 | h1
+    · exact h1 h.1
+    · exact h1 h.2
   | 8, _ =>
     simp [guards] at h1
     simp only [Constraint]
@@ -120,7 +134,7 @@ theorem validate_some_sound (c : Cfg) (k : Nat) (h : validate c = some k) :
     simp only [Constraint]
     revert h1
     cases c.CompactionRatio <;> simp [Ratio.isNaN, Ratio.isInf, Finite]
-  | k + 16, hk => exact absurd hk (by simp [numConstraints])
+  | k + 17, hk => exact absurd hk (by simp [numConstraints])
 
 /-! ### save / load / open -/
 
@@ -401,9 +415,26 @@ theorem crash_during_save (J : Codec Doc) (hJ : J.Laws) (c : Cfg) (d : Dir Doc) 
     subst this
     exact load_data J s b' c hm hdec hv
 
-theorem default_valid (sub : String → GoStr) (h : ∀ s, sub s ≠ []) : Valid (defaults sub) := by
+theorem default_valid (sub : String → GoStr) (h : ∀ s, sub s ≠ []) (hu : ∀ s, ValidUTF8 (sub s)) :
+    Valid (defaults sub) := by
   rw [valid_iff_conj]
-  simp [defaults, zero, GreaterThanOne, Finite, h]
+  simp [defaults, zero, GreaterThanOne, Finite, h, hu]
   decide
+
+/-- since the repair of KF-C20-utf8 a VALID configuration is encodable as soon as its integers are values of their Go
+    types (always true of a value a Go program holds): strings are valid UTF-8 (constraint 16), the float is finite (9) -/
+theorem valid_encodable (c : Cfg) (hv : Valid c) (hr : representable c) : Encodable c := by
+  rw [valid_iff_conj] at hv
+  obtain ⟨_, _, _, _, _, _, _, _, _, h9, _, _, _, _, _, _, h16⟩ := hv
+  refine ⟨?_, ?_, hr⟩
+  · intro s hs
+    simp only [strings, List.mem_cons, List.not_mem_nil, or_false] at hs
+    rcases hs with rfl | rfl
+    · exact h16.1
+    · exact h16.2
+  · intro r hr'
+    simp only [ratios, List.mem_cons, List.not_mem_nil, or_false] at hr'
+    subst hr'
+    exact h9
 
 end Kevo.Proofs.Config
